@@ -197,6 +197,25 @@ def op_callgraph(state: State, a: Dict[str, Any], env: simenv.SimEnv) -> Any:
     out: Dict[str, Any] = {"ranks": {}, "built_ranks": [int(r) for r in cg.ranks]}
     for r in cg.ranks:
         out["ranks"][str(int(r))] = _stack_frame(state, int(r))
+    # CallGraph.get_stack_of_node for a few seeded nodes of every built rank (rank passed explicitly)
+    probes = []
+    for r in cg.ranks:
+        df = state.trace.get_trace(int(r))
+        ids = [int(x) for x in df["index"].tolist()]
+        for pick in a.get("probe_nodes") or []:
+            if not ids:
+                break
+            idx = ids[int(pick) % len(ids)]
+            for skip in (False, True):
+                try:
+                    st = cg.get_stack_of_node(idx, rank=int(r), skip_ancestors=skip)
+                    probes.append({"rank": int(r), "node": idx, "skip_ancestors": skip,
+                                   "ids": sorted(int(x) for x in st["index"].tolist())})
+                except Exception as exc:  # noqa: BLE001
+                    if type(exc).__name__ in ("SimDeadlock", "SimHarnessError"):
+                        raise
+                    probes.append({"rank": int(r), "node": idx, "skip_ancestors": skip, "exc": type(exc).__name__})
+    out["stack_probes"] = probes
     mp = cg.mapping
     out["mapping"] = [[canon_value(x) for x in row] for row in mp[["rank", "pid", "tid", "label", "stack_root"]].values.tolist()]
     return out
